@@ -11,6 +11,7 @@ import (
 	"go/types"
 	"math"
 	"math/big"
+	"sort"
 	"strings"
 
 	"golang.org/x/tools/go/ssa"
@@ -572,10 +573,56 @@ func (fv *FV) unboxAll(st *State, from int) {
 	st.fr.boxes = bs[:from]
 }
 
-func (fv *FV) newRef(st *State, prefix string) string {
+// trackedTypes: the tracked types present in this universe, name -> dynamic type id.
+func (fv *FV) trackedTypes() map[string]int {
+	if fv.tracked != nil {
+		return fv.tracked
+	}
+	fv.tracked = map[string]int{}
+	for _, n := range fv.u.db.Tracked {
+		if t := fv.tryParseTypeName("*" + n); t != nil {
+			fv.tracked[n] = fv.u.typeID(t)
+		}
+	}
+	return fv.tracked
+}
+
+// trackedName: the tracked-type name of t ("" when t is not tracked).
+func (fv *FV) trackedName(t types.Type) string {
+	if t == nil || len(fv.trackedTypes()) == 0 {
+		return ""
+	}
+	id := fv.u.typeID(types.NewPointer(t))
+	for n, i := range fv.tracked {
+		if i == id {
+			return n
+		}
+	}
+	return ""
+}
+
+// newRef allocates the next object reference; typ is the allocated type when known.
+func (fv *FV) newRef(st *State, prefix string, typ ...types.Type) string {
 	r := fv.fresh(prefix, "Int")
-	st.assume(fmt.Sprintf("(> %s %s)", r, st.alloc))
+	st.assume(fmt.Sprintf("(= %s (+ %s 1))", r, st.alloc))
 	st.alloc = r
+	if tr := fv.trackedTypes(); len(tr) > 0 {
+		tn := ""
+		if len(typ) == 1 {
+			tn = fv.trackedName(typ[0])
+		}
+		if tn != "" {
+			st.assume(fmt.Sprintf("(= (rtype %s) %d)", r, tr[tn]))
+			if !fv.fc.Allocates[tn] {
+				fv.nTouch++
+				fv.addObl(st, "frame", fmt.Sprintf("allocates:%s#%d@%s", tn, fv.nTouch, st.fr.fn.Name()), "false", "allocates an object of tracked type "+tn+" without declaring it", nil)
+			}
+		} else {
+			for _, id := range sortedIDs(tr) {
+				st.assume(fmt.Sprintf("(not (= (rtype %s) %d))", r, id))
+			}
+		}
+	}
 	if _, ok := fv.u.db.GGlobal["relArr"]; ok {
 		// a freshly allocated array has not been handed to the pool
 		if g, ok := fv.lookupId("relArr", &Env{fv: fv, vars: map[string]Val{}, st: st}); ok {
@@ -583,6 +630,68 @@ func (fv *FV) newRef(st *State, prefix string) string {
 		}
 	}
 	return r
+}
+
+// readOnlyFreeVar: the closure only loads through its first free variable.
+func readOnlyFreeVar(fn *ssa.Function) bool {
+	if len(fn.FreeVars) == 0 {
+		return false
+	}
+	refs := fn.FreeVars[0].Referrers()
+	if refs == nil {
+		return false
+	}
+	for _, r := range *refs {
+		if u, ok := r.(*ssa.UnOp); ok && u.Op == token.MUL {
+			continue
+		}
+		if _, ok := r.(*ssa.DebugRef); ok {
+			continue
+		}
+		return false
+	}
+	return true
+}
+
+// capturedCell: binding b of a closure over fn is a cell holding an Int-sorted
+// value that is written once (before the closure is made) and only read by
+// the closure. Returns the cell's current content.
+func (fv *FV) capturedCell(st *State, b ssa.Value, fn *ssa.Function) (string, bool) {
+	al, ok := b.(*ssa.Alloc)
+	if !ok || !readOnlyFreeVar(fn) {
+		return "", false
+	}
+	et := al.Type().Underlying().(*types.Pointer).Elem()
+	if fv.u.sortOf(et, fv.bv) != "Int" {
+		return "", false
+	}
+	stores := 0
+	for _, r := range *al.Referrers() {
+		switch x := r.(type) {
+		case *ssa.Store:
+			if x.Addr != al {
+				return "", false
+			}
+			stores++
+		case *ssa.MakeClosure, *ssa.DebugRef:
+		default:
+			return "", false
+		}
+	}
+	if stores != 1 {
+		return "", false
+	}
+	v := fv.valOf(st, al)
+	return fmt.Sprintf("(select %s %s)", fv.heap(st, "Int"), fv.asTerm(st, v).T), true
+}
+
+func sortedIDs(m map[string]int) []int {
+	var out []int
+	for _, v := range m {
+		out = append(out, v)
+	}
+	sort.Ints(out)
+	return out
 }
 
 func (fv *FV) convert(st *State, in *ssa.Convert) Val {
@@ -681,6 +790,11 @@ func (fv *FV) assumeWF(st *State, v Val) {
 		switch v.Typ.Underlying().(type) {
 		case *types.Pointer, *types.Map:
 			st.assume(fmt.Sprintf("(and (<= 0 %s) (<= %s %s))", v.T, v.T, st.alloc))
+			if pt, ok := v.Typ.Underlying().(*types.Pointer); ok {
+				if tn := fv.trackedName(pt.Elem()); tn != "" {
+					st.assume(fmt.Sprintf("(or (= %s 0) (= (rtype %s) %d))", v.T, v.T, fv.tracked[tn]))
+				}
+			}
 		case *types.Basic:
 			st.assume(fv.rangeFact(v.T, v.Typ))
 		}
@@ -750,7 +864,7 @@ func (fv *FV) execInstr(st *State, in ssa.Instruction, rest func(*State)) bool {
 	case *ssa.Alloc:
 		et := x.Type().Underlying().(*types.Pointer).Elem()
 		sort := fv.u.sortOf(et, fv.bv)
-		r := fv.newRef(st, "new")
+		r := fv.newRef(st, "new", et)
 		fv.setHeap(st, sort, fmt.Sprintf("(store %s %s %s)", fv.heap(st, sort), r, fv.u.zero(sort)))
 		fv.zeroGhostFields(st, et, r)
 		fv.bind(st, x, Val{T: r, S: "Int", Typ: x.Type()})
@@ -972,6 +1086,14 @@ func (fv *FV) execInstr(st *State, in ssa.Instruction, rest func(*State)) bool {
 		}
 		fv.eng.closures[c] = &closureInfo{fn: fn, binds: binds}
 		st.assume(fmt.Sprintf("(= (fn_of %s) %s)", c, fvv.T))
+		if len(binds) > 0 && binds[0].S == "Int" {
+			if cv, ok := fv.capturedCell(st, x.Bindings[0], fn); ok {
+				// the variable is captured by reference but never assigned again: its value
+				st.assume(fmt.Sprintf("(= (clo_arg0 %s) %s)", c, cv))
+			} else {
+				st.assume(fmt.Sprintf("(= (clo_arg0 %s) %s)", c, binds[0].T))
+			}
+		}
 		st.fr.vals[x] = Val{T: c, S: "Int", Typ: x.Type()}
 	case *ssa.Defer:
 		st.fr.defers = append(st.fr.defers, x)
